@@ -88,11 +88,15 @@ pub struct GraphSpec {
     /// properties set after the history on elements that are still live
     pub props: Vec<(ElemRef, DbValue, DbValue)>,
     pub aliases: Vec<(u8, String)>,
+    /// further nodes (slots nodes, nodes+1, ...), each inserted by ONE
+    /// `insert().nodes().values([[...]])` with exactly this key-value list -
+    /// the list may repeat a key (a new element is written without replacing)
+    pub valued_nodes: Vec<Vec<(DbValue, DbValue)>>,
 }
 
 impl GraphSpec {
     pub fn plain(nodes: u8, ops: &[Op]) -> Self {
-        GraphSpec { nodes, ops: ops.to_vec(), props: vec![], aliases: vec![] }
+        GraphSpec { nodes, ops: ops.to_vec(), props: vec![], aliases: vec![], valued_nodes: vec![] }
     }
 
     pub fn to_json(&self) -> Value {
@@ -101,6 +105,7 @@ impl GraphSpec {
             "ops": self.ops.iter().map(|o| o.text()).collect::<Vec<_>>(),
             "props": self.props.iter().map(|(e, k, v)| json!([e.text(), k, v])).collect::<Vec<_>>(),
             "aliases": self.aliases.iter().map(|(s, a)| json!([s, a])).collect::<Vec<_>>(),
+            "valued_nodes": self.valued_nodes.iter().map(|kv| kv.iter().map(|(k, v)| json!([k, v])).collect::<Vec<_>>()).collect::<Vec<_>>(),
         })
     }
 
@@ -121,7 +126,17 @@ impl GraphSpec {
         for a in v["aliases"].as_array().cloned().unwrap_or_default() {
             aliases.push((a[0].as_u64().ok_or("alias slot")? as u8, a[1].as_str().ok_or("alias")?.to_string()));
         }
-        Ok(GraphSpec { nodes, ops, props, aliases })
+        let mut valued_nodes = vec![];
+        for n in v["valued_nodes"].as_array().cloned().unwrap_or_default() {
+            let mut kvs = vec![];
+            for kv in n.as_array().cloned().unwrap_or_default() {
+                let k: DbValue = serde_json::from_value(kv[0].clone()).map_err(|e| e.to_string())?;
+                let val: DbValue = serde_json::from_value(kv[1].clone()).map_err(|e| e.to_string())?;
+                kvs.push((k, val));
+            }
+            valued_nodes.push(kvs);
+        }
+        Ok(GraphSpec { nodes, ops, props, aliases, valued_nodes })
     }
 }
 
@@ -225,6 +240,15 @@ fn build_inner<S: StorageData>(db: &mut DbImpl<S>, spec: &GraphSpec) -> Result<R
             return Err(format!("insert node returned id {id} (live: {:?})", g.slots));
         }
         g.slots.push(id);
+    }
+    for kvs in &spec.valued_nodes {
+        let values: Vec<DbKeyValue> = kvs.iter().map(|(k, v)| DbKeyValue { key: k.clone(), value: v.clone() }).collect();
+        let id = one_id(db.exec_mut(QueryBuilder::insert().nodes().values(vec![values]).query()), "insert node with values")?;
+        if id <= 0 || g.slots.contains(&id) {
+            return Err(format!("insert node returned id {id} (live: {:?})", g.slots));
+        }
+        g.slots.push(id);
+        g.props.insert(id, kvs.clone());
     }
     let mut nth = 0u8;
     for (nth_op, op) in spec.ops.iter().enumerate() {
